@@ -291,14 +291,25 @@ Section C12Checker.
         * intros t.
           destruct (simplified_polarity (flatten [l; b; r]) Hf t) as [P1 P2].
           destruct (nt_counts eqb ancb eqb_spec (length m) m Ho t) as [C1 C2].
-          fold (flat_simplified eqb l b r) in P1, P2. fold m in P1, P2.
-          unfold target, term in *. split; lia.
+          split; [eapply Z.le_trans; [exact C1|exact P1]|eapply Z.le_trans; [exact C2|exact P2]].
         * intros t Hpos. rewrite <- Dm in Hpos. apply nt_cover; auto.
           apply (count_pos_in eqb eqb_spec). rewrite (den_count eqb) in Hpos.
-          pose proof (count_nonneg eqb t (removes m)). fold m in Hpos. lia.
-        * apply nt_stuck; auto. lia.
+          pose proof (count_nonneg eqb t (removes m)) as CN. unfold target, term in *. lia.
+        * apply nt_stuck; auto. unfold target, term in *. lia.
         * intros v Hv. destruct (nt_resolved_safe HT m v Ho L3 Hv) as [R|(a & -> & H)].
           -- left. eapply (Resolves_ext teqb); [|exact R]. exact Dm.
           -- right. exists a. split; [reflexivity|]. intros t Hne. rewrite <- Dm. now apply H.
   Qed.
 End C12Checker.
+
+(** ** the case-level checker *)
+Lemma okb_spec (c : C12.case) :
+  C12.okb c = true <->
+  c_failed c = false
+  /\ ResultOk N.eqb (dag_ancb (c_dag c))
+       (map to_term (c_left c)) (map to_term (c_base c)) (map to_term (c_right c))
+       (map to_term (c_result c)).
+Proof.
+  unfold C12.okb. rewrite Bool.andb_true_iff, Bool.negb_true_iff.
+  now rewrite (result_okb_spec N.eqb (dag_ancb (c_dag c)) N.eqb_eq).
+Qed.
